@@ -315,6 +315,11 @@ Proof.
   apply key_is_vk. lia.
 Qed.
 
+Theorem spread_posfin : Forall posfin (get_range (FFin false rb) (FFin false re) c).
+Proof.
+  rewrite spread_keys. rewrite Forall_forall. intros x Hx. apply in_map_iff in Hx. destruct Hx as (k & <- & _). eexists; reflexivity.
+Qed.
+
 Theorem spread_strict :
   StronglySorted Flt (FFin false rb :: get_range (FFin false rb) (FFin false re) c ++ [FFin false re]).
 Proof.
@@ -404,4 +409,37 @@ Proof.
   specialize (HT i ltac:(apply in_seq; lia)). apply andb_prop in HT. destruct HT as [H1 H2].
   apply (sparse_enough_mono (Z.of_nat i) (cmaxZ (thr frac i) + 1)); [lia | lia |].
   destruct Hf as [-> | ->]; apply sparse_enoughb_sound; assumption.
+Qed.
+
+(* ---------------------------------------------------------------------------------------------- *)
+(* together with range_around_float: the keys _adjust_range spreads over the range found at a level 1 <= i <= 52
+   around a positive double are strictly increasing and strictly inside it *)
+Require Import Grist.Proofs.Relabel_block_proofs.
+
+Theorem adjust_range_keys_strict u i c :
+  0 < u -> 2 * u < UOVER -> 1 <= i <= 52 -> 1 <= c -> sparse_enough i (c + 1) ->
+  exists rb re, range_around u i = Some (FFin false rb, FFin false re) /\ rb <= u < re /\
+    StronglySorted Flt (FFin false rb :: get_range (FFin false rb) (FFin false re) c ++ [FFin false re]) /\
+    Forall posfin (get_range (FFin false rb) (FFin false re) c).
+Proof.
+  intros Hu Hov Hi Hc (T1 & T2 & T3).
+  pose proof (range_around_block u i Hu ltac:(lia) Hov) as Hr.
+  destruct (block_facts u i Hu ltac:(lia)) as (Ht & Hin & Hw & Hdiv & Hlo & Hhi & Hrb).
+  destruct (g_facts u i Hu) as (Hg & _ & _).
+  set (g := if u <? P52 then 0 else Z.log2 u - 52) in *.
+  set (rb := u / 2 ^ (g + i) * 2 ^ (g + i)) in *. set (re := rb + 2 ^ (g + i)) in *.
+  exists rb, re. split; [exact Hr|]. split; [exact Hin|].
+  assert (Hpg : 0 < 2 ^ g) by (apply pow2_pos'; lia).
+  apply Z.mod_divide in Hdiv; [|lia]. destruct Hdiv as [A HA].
+  assert (HA0 : 0 <= A) by nia.
+  assert (Hre : re = A * 2 ^ g + 2 ^ i * 2 ^ g) by lia.
+  assert (HovA : re < UOVER).
+  { apply Z.le_lt_trans with (Z.max (2 * u) (2 ^ 53)).
+    - destruct (g_facts u i Hu) as (_ & Hlu & _). fold g in Hlu. destruct Hlu as [H0|Hl].
+      + rewrite H0 in Hhi. cbn [Z.add] in Hhi. lia.
+      + assert (2 ^ (53 + g) = 2 * 2 ^ (52 + g)) by (replace (53 + g) with (1 + (52 + g)) by lia; rewrite Z.pow_add_r by lia; reflexivity). lia.
+    - pose proof UOVER_big. assert (2 ^ 53 < 2 ^ 60) by (apply Z.pow_lt_mono_r; lia). lia. }
+  rewrite Hre in Hhi, HovA |- *. rewrite HA in Hlo |- *.
+  split; [exact (spread_strict g A i c Hg HA0 ltac:(lia) Hc Hlo Hhi HovA T1 T2 T3)
+         | exact (spread_posfin g A i c Hg HA0 ltac:(lia) Hc Hlo Hhi HovA T1 T2 T3)].
 Qed.
